@@ -94,6 +94,7 @@ func (t *fnTrans) atEntry() {
 	t.assume(eq(t.h.get(t.cur, "held"), heldInit))
 	t.assume(eq(t.h.get(t.cur, "rheld"), "((as const (Array Int Bool)) false)"))
 	t.ownEntry()
+	t.tokEntry()
 	// the event log of this activation starts empty
 	for _, k := range []string{"spawned", "sent", "freed", "closed", "armed", "stopped", "fired", "broadcast", "read", "called"} {
 		hv := t.h.reg("ghost:"+k, "(Array Int Bool)")
@@ -174,6 +175,7 @@ func (t *fnTrans) atReturn(in *ssa.Return, rs []string) {
 		}
 		t.oblige("lock.balance", disc, in.Pos(), and(eq(t.h.get(t.cur, "held"), want), eq(t.h.get(t.cur, "rheld"), "((as const (Array Int Bool)) false)")), "a lock is still held (or was released twice) when the function returns")
 	}
+	t.tokRelease("", in.Pos(), "return")
 	t.ownReturnHook(in, rs)
 	t.contractReturn(in, rs)
 	if t.g.canary && t.contract != nil && t.cur.reach != "false" {
@@ -419,6 +421,7 @@ func (t *fnTrans) enterLoop(b *ssa.BasicBlock, li *loopInfo) {
 			t.h.set(t.cur, hv, t.h.get(entryState, hv))
 		}
 	}
+	t.tokLoopHead(li, entryState)
 	t.siteState[fmt.Sprintf("loop%d:head", li.ord)] = t.cur
 	t.cur = t.h.child(t.cur)
 	t.loopInvariantsAssume(li)
